@@ -18,7 +18,6 @@ Definition env_ok (c : cat) (x : cmd) : Prop :=
   | CreateSg _ _ t _ => MINNANO <= t < MAXNANO1
   | PruneIg id => prune_ig_env c id
   | Restore => representable c     (* no group starts before -2^63 ns (finding C16-restore-wraps-early-group-start) *)
-  | RenameRp _ _ nn _ _ _ => nn <> 0   (* a policy is not renamed to the empty name (CreateRetentionPolicy refuses it too) *)
   | _ => True
   end.
 
@@ -237,13 +236,13 @@ Definition representable_b (c : cat) : bool :=
                     forallb (fun g => span_ok_b (ig_start g) (ig_end g)) (rp_igs p)) (pols c).
 Definition env_ok_b (c : cat) (x : cmd) : bool :=
   match x with CreateSg _ _ t _ => (MINNANO <=? t) && (t <? MAXNANO1) | PruneIg id => prune_ig_env_b c id | Restore => representable_b c
-             | RenameRp _ _ nn _ _ _ => negb (nn =? 0) | _ => true end.
+             | _ => true end.
 Fixpoint env_run_b (c : cat) (xs : list cmd) : bool :=
   match xs with [] => true | x :: r => env_ok_b c x && env_run_b (fst (apply true true c x)) r end.
 
 Lemma env_ok_b_sound : forall c x, env_ok_b c x = true -> env_ok c x.
 Proof.
-  intros c x. destruct x; cbn [env_ok_b env_ok]; try (intros; exact I); [lia| | |lia].
+  intros c x. destruct x; cbn [env_ok_b env_ok]; try (intros; exact I); [lia| |].
   2: { unfold representable_b, representable. intros Hb. rewrite forallb_forall in Hb. apply Forall_forall. intros p Hp.
        specialize (Hb p Hp). apply andb_true_iff in Hb. destruct Hb as [B1 B2]. rewrite forallb_forall in B1, B2.
        split; apply Forall_forall; intros g Hg; [specialize (B1 g Hg) | specialize (B2 g Hg)]; unfold span_ok_b, span_ok in *; lia. }
